@@ -118,7 +118,7 @@ func newEqualExprNode() ExprNode { return &equalExprNode{} }
 func (ee *equalExprNode) Run(ctx context.Context, currField string, tagExpr *TagExpr) interface{} {
 	v0 := ee.leftOperand.Run(ctx, currField, tagExpr)
 	v1 := ee.rightOperand.Run(ctx, currField, tagExpr)
-	if v0 == v1 {
+	if interfaceEqual(v0, v1) {
 		return true
 	}
 	if s0, ok := toFloat64(v0, false); ok {
